@@ -16,6 +16,8 @@ THEOREMS = [
     "C42.start_propagates",
     "C42.non_raising_transparent",
     "C42.non_raising_observables",
+    "C42.returned_disposable_attached",
+    "C42.dispose_cancels_returned",
     "C42.true_swallows_and_stops_periodic",
     "C42.non_raising_periodic_transparent",
 ]
@@ -24,8 +26,8 @@ RULE = ("trees of recursive scheduling (depth <=3) through a real CatchScheduler
         "(or a negative sleep -> ArgumentOutOfRangeException) at every position with probability ~0.35; handler verdict per exception name; run by "
         "start/advance_to (re-armed with stop() after an escalation); the SAME exception instance raised by several actions with a stateful handler "
         "(verdict per call position); periodic actions through CatchScheduler.schedule_periodic raising at a chosen tick, several jobs on one "
-        "CatchScheduler instance (one failing, one scheduled after the failure, interval()/timer(p,p)); oracle-only: non-raising actions that RETURN the "
-        "disposable of follow-up work (chains), outer handle disposed before / between / after, compared with the same script on the bare scheduler. Compared with the Lean model on "
+        "CatchScheduler instance (one failing, one scheduled after the failure, interval()/timer(p,p)); non-raising actions that RETURN the "
+        "disposable of follow-up work (chains), outer handle disposed before / between / after — modelled (Act.ret) and also compared with the same script on the bare scheduler. Compared with the Lean model on "
         "handler-call log, per-call outcomes (which exception escapes), executed-action log and clocks. non-trivial = at least one action raised")
 ASSUMPTIONS = ["single-threaded use; inner scheduler is a virtual-time scheduler (C28/C29 model)",
                "the handler itself does not raise and returns a bool (it may be stateful: the model's verdict is a function of call position and exception)"]
@@ -36,7 +38,8 @@ def gen_tree_case(rng):
     kind = rng.choice(["test", "vts", "hist"])
     unit = 500 if kind == "hist" else 1
     raise_p = rng.choice([0.0, 0.2, 0.35, 0.35, 0.6])
-    g = vc.Gen(rng, unit=unit, raise_p=raise_p, via_p=rng.choice([0.0, 0.0, 0.3, 0.6]), stop_p=0.02, sleep_p=0.08)
+    g = vc.Gen(rng, unit=unit, raise_p=raise_p, via_p=rng.choice([0.0, 0.0, 0.3, 0.6]), stop_p=0.02, sleep_p=0.08,
+               ret_p=rng.choice([0.0, 0.0, 0.4]))
     c0 = unit * rng.choice([0, 0, 10])
     ops = []
     for _ in range(rng.randrange(1, 6)):
@@ -101,8 +104,8 @@ def gen_shared_exc_case(rng):
 def gen_ret_case(rng):
     """non-raising actions that RETURN the disposable of follow-up work they scheduled (chains of depth 1..3), scheduled through
     the CatchScheduler, with the caller disposing the outer handle before the action ran / after it ran but before the follow-up is
-    due / after everything ran.  Oracle-only (the Lean model's actions return None): the same script on the bare inner scheduler
-    must behave identically."""
+    due / after everything ran.  Compared with the Lean model (Act.ret / St.attachRet / St.dispose), and the same script on the bare
+    inner scheduler must behave identically."""
     kind = rng.choice(["test", "vts", "hist"])
     unit = 500 if kind == "hist" else 1
     c0 = unit * rng.choice([0, 0, 5])
@@ -120,6 +123,8 @@ def gen_ret_case(rng):
             if rng.random() < 0.3:     # unrelated sibling work that must be unaffected
                 steps.append(["sched", "handed", "rel", unit * rng.randrange(1, 8), {"id": nid, "steps": [], "raise": None}])
                 nid += 1
+            if rng.random() < 0.12:    # the action disposes its OWN handle first: what it then returns is disposed at once
+                steps.insert(rng.randrange(0, len(steps) + 1), ["cancel", ids[j]])
             node = {"id": ids[j], "steps": steps, "raise": None, "ret": node["id"] if rng.random() < 0.85 else None}
         ops.append(["sched", rng.random() < 0.9, "abs", t0, node])
         roots.append((ids, t0, gaps))
@@ -162,8 +167,6 @@ def cases(rng, tier):
 
 
 def model_request(case):
-    if case.get("returns_disposables"):
-        return None   # oracle-only: the model's actions return None
     return vc.per_model_request(case) if case["op"] == "per_script" else vc.model_request(case)
 
 
@@ -342,7 +345,7 @@ LEVEL_TEXT = ("Lean: on the model of CatchScheduler over the virtual-time schedu
               "and refused by the handler; (4) for scripts whose actions do not raise, wrapped and unwrapped runs are bisimilar (same outcomes, log, "
               "clocks, queue; handler never called); (5) periodic: a raising tick calls the handler once, True swallows it and the task is never invoked "
               "again, False propagates. Tied to /repo by differential runs on a real CatchScheduler with exceptions at every position.")
-LEVEL_NOTE = ("The Lean model's actions return None: that a disposable RETURNED by a wrapped action stays attached to the scheduled item's handle is checked by the oracle "
-              "only (CatchScheduler run vs bare-scheduler run of the same script), not proved. Assumed: the handler returns a bool and does not raise; single thread. The handler-call log `hlog` is an observation field of the model, "
+LEVEL_NOTE = ("Returned disposables are modelled (Act.ret, St.attachRet = `self.disposable.disposable = ret`, St.dispose follows them transitively; action ids are assumed "
+              "unique) and covered by non_raising_transparent, returned_disposable_attached, dispose_cancels_returned. Assumed: the handler returns a bool and does not raise; single thread. The handler-call log `hlog` is an observation field of the model, "
               "compared with the real handler's calls by the correspondence. (1) needs the hypothesis that no action schedules on the closed-over inner "
               "scheduler (then the exception legitimately bypasses the handler; the model and the correspondence cover that case too).")
